@@ -11,9 +11,9 @@ U3  == <<226,130,172>>                                                  \* U+20A
 M16 == <<97,98,99,100,101,102,103,104,105,106,107,108,109>> \o U3       \* 16 bytes ending in a 3-byte char
 M22 == <<97>> \o E2 \o U3 \o G4 \o <<98,99>> \o G4 \o U3 \o E2 \o <<100>> \* 22 bytes, every width
 cStrS3 == { <<97>>, G4, A17 }
-cStrS5 == cStrS3 \cup { E2, A15 }
+cStrS5 == cStrS3 \cup { E2, A15, <<>> }
 cStrS2 == { <<97>>, A17 }
-cStrMix == { <<97>>, U3, M22 }
+cStrMix == { <<>>, <<97>>, U3, M22 }          \* the empty string too: an empty insert must still be rejected at a bad index
 \* static texts: 20 bytes with a 3-byte char near the end; 40 bytes; 17 bytes
 St20 == <<83,116,97,116,105,99,32,116,101,120,116,32,49,56,32,98,226,130,172,33>>
 St40 == St20 \o <<32,97,110,100,32,115,111,109,101,32,109,111,114,101,32,195,169,33,33,33>>
@@ -80,6 +80,8 @@ SeedTripleTr   == << o("from_str", 1, 0, 0, M22), o("clone", 2, 1, 0, <<>>), o("
 SeedPair16     == << o("from_str", 1, 0, 0, M16), o("with_capacity", 2, 0, 17, <<>>), o("push_str", 2, 0, 0, M16) >>           \* 16 bytes inline vs heap
 cSeedsPairs == { SeedPairOver, SeedPairShort, SeedPairStatic, SeedPairPop, SeedPairStatH, SeedTripleSh, SeedTripleTr, SeedPair16 }
 cOpsPairs == {"compare", "push_str", "pop", "clone", "truncate", "drop", "clear"}
+SeedTriple == << o("from_str", 1, 0, 0, M22), o("clone", 2, 1, 0, <<>>), o("clone", 3, 1, 0, <<>>), o("truncate", 3, 0, 6, <<>>) >>   \* three holders, one shorter
+cSeeds3 == cSeedsAll \cup cSeedsPairs \cup { SeedTriple }
 cSeedsShrink == { SeedHeapOver, SeedHeapOverSh, SeedHeapShort, SeedHeapUnique, SeedHeapShared, SeedHeapSharedT, SeedStatic, SeedInline15,
                   << o("with_capacity", 1, 0, 60, <<>>), o("push_str", 1, 0, 0, A17) >>,
                   << o("with_capacity", 1, 0, 60, <<>>), o("push_str", 1, 0, 0, A17), o("clone", 2, 1, 0, <<>>) >>,
